@@ -293,6 +293,14 @@ class C08(Prop):
             arr["vkind"] = vk
             shape = [len(a["labels"]) for a in arr["axes"]]
             arr["nan_at"] = nan_pattern(rng, shape, rng.choice(["none", "some", "fibre", "all", "some"])) if vk == "f" else []
+            if vk == "f" and rng.random() < 0.2:
+                # infinite cells are values, not missing values: skipna leaves them in
+                size = 1
+                for n_ in shape:
+                    size *= n_
+                free = [i for i in range(size) if i not in arr["nan_at"]]
+                if free:
+                    arr["inf_at"] = [[i, rng.choice([1, 1, -1])] for i in rng.sample(free, min(len(free), rng.randint(1, 2)))]
             if rng.random() < 0.4:
                 arr["attrs_py"] = {"units": "K", "n": 2}
             gen.dtype_variants(rng, arr)
